@@ -218,7 +218,9 @@ def oracle_api(ctx, n):
             xyz_new = [round(rng.uniform(0.2, 0.8), 5) for _ in range(3)]
             with contextlib.redirect_stdout(io.StringIO()):
                 shx.add_atom(name='C77', coordinates=list(xyz_new), element='C', uvals=[0.04, 0.0, 0.0, 0.0, 0.0, 0.0], part=0, sof=11.0)
-            atoms.append({'name': 'C77', 'xyz': xyz_new, 'part': 0, 'q': False, 'resi': 0})
+            # the new atom stands behind the last atom that is not a Q-peak (in the file: in front of HKLF)
+            nq_ = max([i_ for i_, a_ in enumerate(atoms) if not a_['q']] + [-1]) + 1
+            atoms.insert(nq_, {'name': 'C77', 'xyz': xyz_new, 'part': 0, 'q': False, 'resi': 0})
             case['edited'] = 'add_atom(C77, %s)' % xyz_new
         if prev is not None and rng.random() < 0.5:
             # another structure is open in the same process and is asked for atoms by name first
